@@ -17,3 +17,4 @@ import DefconModel.Lemmas.Geom.Cyclic
 import DefconModel.Lemmas.Geom.Rotate
 import DefconModel.Lemmas.Geom.RevSeg
 import DefconModel.Lemmas.Geom.RevArea
+import DefconModel.Lemmas.Geom.CtrlBox
